@@ -293,9 +293,10 @@ def decide(pid, tier, jobs, repo, seed, only=None, verbose=False):
                     continue
                 for w, o in zip(c, outs):
                     if o['outcome'] != w['outcome'] or o['failures'] or json.dumps(o['obs'], sort_keys=True) != json.dumps(w['obs'], sort_keys=True):
-                        harness_errors.append('witness mismatch in %s cfg=%s: symbolic outcome=%s obs=%s / plain outcome=%s failures=%s obs=%s inputs=%s %s'
-                                              % (w['harness'], w['cfg'], w['outcome'], json.dumps(w['obs'])[:300], o['outcome'], o['failures'],
-                                                 json.dumps(o['obs'])[:300], json.dumps(w['inputs'])[:400], '\n'.join(o.get('exc') or [])))
+                        diff = [(a, b) for a, b in zip(w['obs'], o['obs']) if json.dumps(a, sort_keys=True) != json.dumps(b, sort_keys=True)][:3]
+                        harness_errors.append('witness mismatch in %s cfg=%s: symbolic outcome=%s / plain outcome=%s failures=%s; first differing observations (symbolic, plain)=%s nobs=%d/%d inputs=%s %s'
+                                              % (w['harness'], w['cfg'], w['outcome'], o['outcome'], o['failures'],
+                                                 json.dumps(diff)[:600], len(w['obs']), len(o['obs']), json.dumps(w['inputs'])[:400], '\n'.join(o.get('exc') or [])))
                     else:
                         validated += 1
 
